@@ -346,6 +346,8 @@ class Oracle:
                 nder = max(2, nder)          # Fem.tla then also gets the second derivatives of the geometry
             # raw elements this part's integrand refers to (through its coefficient leaves)
             used_raw = {repr(sb["raw"]) for lf in part.cleaves for sb in prog.spaces[prog.coefs[lf["k"]]].subs}
+            used_raw |= {repr(sb["raw"]) for name in prog.args for sb in prog.spaces[name].subs}       # argument spaces: always
+            used_raw |= {repr(sb["raw"]) for sb in prog.spaces[prog.coord].subs}
             for key_, (name, sub) in prog.raw_names.items():
                 tabs[name] = [tabulate_raw(sub, xq[s], nder, prog.tdim, unused=key_ not in used_raw) for s in range(prog.nsides)]
             parts.append({"tree": part.tree, "aleaves": part.aleaves, "cleaves": part.cleaves,
